@@ -196,6 +196,8 @@ ob('C14.pair', ['C14'], 'merge_ska_array/dist', 'variant_dist_pair_r4', function
    sym='two columns of 4 symbols over {A,C,G,T,-}, constant 0..=3', oracle='distance = #{both present, different}; mismatch = m/(constant+both+m), 0 if empty; in [0,1]; symmetric; identical -> (0,0)', bounds='4 k-mers', timeout=1800, mem_gb=12)
 ob('C14.all', ['C14'], 'merge_ska_array/dist', 'distance_all_pairs_2x3', functions=[MA + 'distance', MA + 'variant_dist'], inst='u64', needs_parts=['merge_ska_array/common'], caps=CAP23, models=['ndarray', 'rayon (sequential)', 'indicatif'],
    sym='2 x 3 table over {A,C,G,T,-}, constant 0..=2', oracle='row i holds pairs (i,j), j>i, each unordered pair once, values = pairwise specification', bounds='3 samples, 2 k-mers', timeout=2400, mem_gb=12)
+ob('C14.all.empty', ['C14'], 'merge_ska_array/dist', 'distance_all_pairs_0x3', functions=[MA + 'distance', MA + 'variant_dist'], inst='u64', needs_parts=['merge_ska_array/common'], caps=CAP23, models=['ndarray', 'rayon (sequential)', 'indicatif'],
+   sym='0 x 3 table (no variable k-mer left after the pre-filters), constant 0..=2', oracle='every unordered pair reported exactly once with distance 0 and mismatch 0', bounds='3 samples, 0 k-mers', timeout=1200, mem_gb=10)
 # ------------------------------------------------------------------ C07.rt / C03.fasta / C01.nk
 ob('C07.rt', ['C07', 'C10'], 'merge_ska_array/conv', 'array_dict_roundtrip_2x3', functions=[MA + 'to_dict', MA + 'new', MD + 'build_from_array'], inst='u64', needs_parts=['merge_ska_array/common'], caps=CAP23, models=['ndarray', 'hashbrown'],
    sym='2 x 3 table over the 16 stored symbols, strand mode, stale stored count', oracle='array -> dict -> array preserves k, strand mode, names and the key -> row map; counts recomputed', bounds='2 x 3', timeout=2400, mem_gb=12)
@@ -282,11 +284,18 @@ for n, tier in ((3, 'quick'), (4, 'thorough')):
 
 # ------------------------------------------------------------------ C04.case / C04.ref (RefSka::new through the needletail model)
 REFNEW = [RS + 'new', RS + 'track_repeats'] + WINF
-for (nm, fn, tier, tmo) in [('l6', 'ref_new_l6', 'quick', 3600), ('l7n', 'ref_new_l7_n', 'thorough', 7200)]:
+for (nm, fn, tier, tmo) in [('l5', 'ref_new_l5', 'quick', 1800), ('l6n', 'ref_new_l6_n', 'quick', 3600), ('l6', 'ref_new_l6', 'thorough', 3600), ('l7n', 'ref_new_l7_n', 'thorough', 7200)]:
     ob('C04.case.' + nm, ['C04', 'C05', 'C13'], 'ska_ref/new', fn, tier=tier, functions=REFNEW, inst='u64', needs_parts=['ska_ref/common', 'split_kmer/common'], caps={'MCAP': 1, 'SCAP': 3, 'RCAP': 1, 'CCAP': 1},
        models=['needletail (in-memory records)', 'hashbrown', 'ndarray'], stubs=['core::str::from_utf8 -> unchecked (kani::stub)'], sym='one contig of %s bases in either case%s, strand mode' % (nm[1], ' with N' if 'n' in nm[2:] else ''),
-       oracle='k-mer list = window specification with centres ascending and strand flags; stored reference is upper-case; contig name', bounds='k=5, ' + nm, timeout=tmo, mem_gb=20, mem_expect_gb=10)
-# C04.ref (repeat coordinates of RefSka::new) is NOT registered: three contigs of 11-12 bases with repeat tracking did
+       oracle='k-mer list = window specification with centres ascending and strand flags; stored reference is upper-case; contig name', bounds='k=5, ' + nm, timeout=tmo, mem_gb=20, mem_expect_gb=10,
+       dead_witnesses=[] if 'n' in nm[2:] else ['first window invalid, a later one indexed'])
+for (nm, fn, tier) in [('mid.5_1_5', 'ref_new_repeats_mid_5_1_5', 'thorough'), ('mid.5_6', 'ref_new_repeats_mid_5_6', 'thorough')]:
+    ob('C04.ref.' + nm, ['C04'], 'ska_ref/new', fn, tier=tier, family='C04.ref', functions=REFNEW, inst='u64', needs_parts=['ska_ref/common', 'split_kmer/common'], caps={'MCAP': 1, 'SCAP': 3, 'RCAP': 1, 'CCAP': 1},
+       models=['needletail (in-memory records)', 'hashbrown', 'ndarray'], stubs=['core::str::from_utf8 -> unchecked (kani::stub)'],
+       sym='contigs ' + nm[4:] + ' with concrete arms AC.TA (so that the repeated split k-mer is a concrete key); middle bases in either case' + (', the base of the 1-base contig over {ACGTN} in either case and the strand mode' if nm == 'mid.5_1_5' else '') + ' symbolic',
+       oracle='k-mer list; repeat coordinates = exactly the absolute positions within (k-1)/2 of a centre whose split k-mer occurs twice' + (' (a contig shorter than k lies between the two occurrences)' if nm == 'mid.5_1_5' else ''),
+       bounds='k=5, contigs ' + nm[4:] + ', repeat mask on', timeout=3600, mem_gb=20, mem_expect_gb=10)
+# the general C04.ref (every base symbolic) is NOT registered: three contigs of 11-12 bases with repeat tracking did
 # not finish in 2 h (ref_new_repeats_* harnesses are kept in harness/ska_ref/new.rs for reference)
 
 # ------------------------------------------------------------------ C11 (sequential model: merge tree and pool initialisation)
@@ -336,3 +345,8 @@ for (n, m, tier) in [(2, 2, 'thorough')]:
        sym='%d copies of one read of 6 symbolic bases, symbolic middle-base qualities per copy, strand mode; min-count %d, min-qual 20, middle rule; the two k-mers of the read assumed to fall into different Bloom blocks' % (n, m),
        oracle='each split k-mer included exactly when seen min-count times with a passing middle base', bounds='k=5, one FASTQ file, %d reads of 6 bases' % n, timeout=7200, mem_gb=40, mem_expect_gb=20,
        dead_witnesses=['second window reaches the count although its last sighting fails'] if n == 2 else [])
+
+# ------------------------------------------------------------------ C05.vcf (write_vcf on an arbitrary mapped alignment)
+# NOT registered: harness/ska_ref/vcfw.rs drives RefSka::write_vcf with an arbitrary alignment (alignment provider stub) against
+# the recording noodles_vcf model (models/noodles_vcf.rs). Even 1 sample x 1 position exhausts 24 GB (CBMC dies while converting,
+# 213-1040 s); write_vcf therefore stays outside the C05 claim. The harness part is not compiled by any registered obligation.
